@@ -241,6 +241,7 @@ def units(tier):
     U += relax_units()
     U += bfs_units(tier)
     U += ctor_units()
+    U += empty_ctor_units()
     return U
 
 
@@ -529,6 +530,37 @@ __CPROVER_assigns(g_sizes, g_pos_inf, g_setup_calls, g_fill_calls, g_impose_call
                       harness="int main(void) {\n  vp_vec_u in_d; vp_vec_b in_p; in_d.n = nondet_size(); in_p.n = in_d.n;\n  for (int k = 0; k < DMAX; k++) { in_d.a[k] = nondet_uint(); in_p.a[k] = nondet_bool(); }\n"
                               "  g_setup_calls = 0; g_fill_calls = 0; g_impose_calls = 0; g_mask_calls = 0; g_mask_late = 0; g_seq = 0; g_thrown = 0; g_nv = nondet_size(); g_nv_given = nondet_size();\n  build_complex(in_d, in_p);\n  __CPROVER_assert(0, \"VP_REACH\");\n  return 0;\n}\n",
                       desc=f"{cls}, construction from {'top-cell' if top else 'vertex'} values: " + ("the periodic mask is stored first; " if per else "") + "set_up_containers receives, per direction, " + ("the given size" if top else ("the number of vertices minus one (the number of vertices itself in a periodic direction)" if per else "the number of vertices minus one")) + f", with {'+' if top else '-'}infinity as the starting value; then the input values are written and the lower-star filtration is imposed, in that order"))
+    return U
+
+def empty_ctor_units():
+    """The constructors that only allocate an empty complex (values to be written by hand through the iterators): all
+    cells start at +infinity (so that impose_lower_star_filtration can lower them), the sizes are passed through, and the
+    periodic class stores its mask first."""
+    U = []
+    G = ("#define DMAX 4\ntypedef struct { unsigned a[DMAX]; size_t n; } vp_vec_u; typedef struct { bool a[DMAX]; size_t n; } vp_vec_b;\n"
+         "vp_vec_u g_sizes; bool g_pos_inf; unsigned g_setup_calls, g_mask_calls; bool g_mask_late;\n"
+         "static void rec_mask(void) { g_mask_calls++; if (g_setup_calls != 0) g_mask_late = true; }\n"
+         "static void rec_set_up_containers(vp_vec_u s, bool pos_inf) { g_sizes = s; g_pos_inf = pos_inf; g_setup_calls++; }\n"
+         "static bool same(vp_vec_u a, vp_vec_u b) { bool ok = a.n == b.n; for (unsigned k = 0; k < DMAX; k++) if (k < a.n) ok = ok && a.a[k] == b.a[k]; return ok; }\n"
+         "unsigned nondet_uint(void); size_t nondet_size(void);\n")
+    for nm, path, cls, sel, per in (
+            ("base.ctor1", B, CLS_B, rf"{CLS_B}<T>::{CLS_B}\(const std::vector<unsigned>& sizes\)", False),
+            ("base.ctor2", B, CLS_B, rf"{CLS_B}<T>::{CLS_B}\(const std::vector<unsigned>& sizes,\s*const std::vector<bool>& directions\)", False),
+            ("per.ctor1", PB, CLS_P, rf"{CLS_P}<T>::{CLS_P}\(\s*const std::vector<unsigned>& sizes\)", True),
+            ("per.ctor2", PB, CLS_P, rf"{CLS_P}<T>::{CLS_P}\(\s*const std::vector<unsigned>& sizes,\s*const std::vector<bool>& directions_in_which_periodic_b_cond_are_to_be_imposed\)\s*: directions", True)):
+        con = f"""
+__CPROVER_requires(sizes.n >= 1 && sizes.n <= DMAX && g_setup_calls == 0 && g_mask_calls == 0 && !g_mask_late)
+__CPROVER_ensures(g_setup_calls == 1 && g_pos_inf && same(g_sizes, sizes))
+__CPROVER_ensures(g_mask_calls == {1 if per else 0} && !g_mask_late)
+__CPROVER_assigns(g_sizes, g_pos_inf, g_setup_calls, g_mask_calls, g_mask_late)
+"""
+        fn = Fn(path, sel, "ctor_empty", con, sig_subs=[(r"^.*$", "void ctor_empty(vp_vec_u sizes)")],
+                subs=[(r"(?:this->)?directions_in_which_periodic_b_cond_are_to_be_imposed = [^;]*;", "rec_mask();", 0),
+                      (r"(?:this->)?set_up_containers\((\w+), (\w+)\);", r"rec_set_up_containers(\1, \2);")],
+                canary=(r"rec_set_up_containers\((\w+), true\)", r"rec_set_up_containers(\1, false)"))
+        U.append(Unit(f"{nm}.empty_complex", "C13", [fn], enforce="ctor_empty", globals_=G, inputs=["in_s"], replay=replay_by_native_search,
+                      harness="int main(void) {\n  vp_vec_u in_s; in_s.n = nondet_size(); for (int k = 0; k < DMAX; k++) in_s.a[k] = nondet_uint(); g_setup_calls = 0; g_mask_calls = 0; g_mask_late = 0;\n  ctor_empty(in_s);\n  __CPROVER_assert(0, \"VP_REACH\");\n  return 0;\n}\n",
+                      desc=f"{cls} constructor from sizes{' and periodic directions' if nm.endswith('2') else ''} (empty complex to be filled by hand): " + ("the periodic mask is stored before " if per else "") + "set_up_containers gets the sizes unchanged and +infinity as the starting value of every cell"))
     return U
 
 def bfs_units(tier):
